@@ -623,12 +623,20 @@ def emit_with_procs(prog, **kw):
     """Emits main followed by the procedure definitions. Returns (text, spans)."""
     from .lang import Emitter
     em = Emitter(eol=kw.get("eol", "\n"), indent=2, rng=kw.get("rng"), noise=kw.get("noise", 0.0))
+
+    def emit_procs():
+        for p in prog["procs"]:
+            em.stmt({"k": p["k"], "name": p["name"], "params": [n for n, t in p["params"]], "static": p["static"], "body": p["body"], "id": None})
+        em.flush()
+
+    # procs_first: the SUB / FUNCTION definitions precede the module-level code (the text order is free in BASIC)
+    if kw.get("procs_first"):
+        emit_procs()
     for s in prog["main"]:
         em.stmt(s)
     em.flush()
-    for p in prog["procs"]:
-        em.stmt({"k": p["k"], "name": p["name"], "params": [n for n, t in p["params"]], "static": p["static"], "body": p["body"], "id": None})
-    em.flush()
+    if not kw.get("procs_first"):
+        emit_procs()
     return "".join(t + e for t, e in em.lines), em.spans
 
 
